@@ -32,6 +32,16 @@ def sequences(tier):
             seq.append({"sql": f"with {al} as ({body}) insert into tgt{i} select * from {al}", "dialect": "ansi", "want": ["inv"]})
         out.append(seq)
     out.append([{"sql": "insert overwrite table tab1 select col1 from tab2", "dialect": d, "want": ["inv"]} for d in ("sparksql", "hive", "ansi", "postgres", "sparksql")])
+    # the same text analysed again under another default schema (scoped override, environment, none): whatever is remembered per text must not
+    # carry a schema over - sub-queries in select items, FROM, WHERE and CTEs over unqualified tables
+    texts = ["insert into rpt select o.id, o.amount * (select max(rate) from fx) as eur from orders o; insert into summ select eur from rpt",
+             "create table rpt as select case when o.k > 0 then (select min(r.v) from ref_t r) else 0 end as c, coalesce((select 1 from dual_t), o.z) as d from orders o",
+             "insert into rpt select d.a from (select a from base_t) d where d.a in (select a from filt_t); insert into rpt2 select a from rpt",
+             "with w as (select a, b from base_t) insert into rpt select w.a, (select count(x) from cnt_t) as n from w"]
+    for i, t in enumerate(texts):
+        for d in ("ansi", "non-validating") if i % 2 == 0 else ("ansi",):
+            out.append([{"sql": t, "dialect": d, "want": ["inv"], **cfg} for cfg in ({"config": {"DEFAULT_SCHEMA": "staging"}}, {}, {"env": {"SQLLINEAGE_DEFAULT_SCHEMA": "mart"}},
+                                                                                   {"config": {"DEFAULT_SCHEMA": "zz"}}, {})])
     out.append([{"sql": ";".join(["insert into t%d select c from t%d" % (k + 1, k) for k in range(n)]), "dialect": "ansi", "want": ["inv"]} for n in (1, 2, 3, 2, 1)])
     return out
 
